@@ -1057,14 +1057,14 @@ func init() {
 func ruleErrLocSplit(c *Ctx) []Obligation {
 	const R = "ERR.LOCSPLIT"
 	con := "the pieces the error comparator compares are source name, line and column for every form of position"
-	less := c.Fn("yang.(sortedErrors).Less")
+	less, scope := c.errorOrder()
 	if less == nil {
 		return []Obligation{undecided(R, con, "-", "sortedErrors.Less not found")}
 	}
-	// the pattern: a package-level *regexp.Regexp that the comparator (or its private helper) matches with
+	// the pattern: a package-level *regexp.Regexp that the comparator (or what makes its keys) matches with
 	var g *ssa.Global
 	var at ssa.Instruction
-	c.eachInstrDeep(less, func(in ssa.Instruction) {
+	eachInstrOf(scope, func(in ssa.Instruction) {
 		call, isC := in.(*ssa.Call)
 		if !isC || g != nil {
 			return
@@ -1097,7 +1097,7 @@ func ruleErrLocSplit(c *Ctx) []Obligation {
 				if !isP || !isK || !isIntType(p.Type()) {
 					return
 				}
-				arg, isA := constInt(resolveArg(p))
+				arg, isA := constInt(c.constAtSites(p))
 				if !isA {
 					return
 				}
